@@ -47,7 +47,7 @@ contract(_K + "_populate_edge_node_connectivity", props=["C02", "C08"],
 _EN = "entry(grid._ds, 'edge_node_connectivity')"
 _FNV = "entry(grid._ds, 'face_node_connectivity').values"
 _INV_EN = (f"implies(has(grid._ds, 'edge_node_connectivity') and has({_EN}.attrs, 'inverse_indices'), "
-           f"same({_EN}.attrs['inverse_indices'], uf('edge_inverse', {_FNV})))")
+           f"same({_EN}.attrs['inverse_indices'], uf('edge_inverse', {_FNV})) and same({_EN}.data, uf('edge_nodes', {_FNV})))")
 inline(_G + "edge_node_connectivity")
 contract(_K + "_populate_face_edge_connectivity", props=["C02", "C08"],
          params={"grid": "obj('Grid', attrs='dict')"},
@@ -58,6 +58,11 @@ contract(_K + "_populate_face_edge_connectivity", props=["C02", "C08"],
                   f"same(entry(grid._ds, 'face_edge_connectivity').data, summary('{_K}_build_face_edge_connectivity', "
                   f"uf('edge_inverse', {_FNV}), dim(grid, 'n_face'), uf('n_max_face_nodes', src(grid))))",
                   "ds_frame(grid._ds, old(grid._ds), ['face_edge_connectivity', 'edge_node_connectivity'])",
+                  # face_edge indices number the rows of the edge table the grid REPORTS: afterwards that table carries the inverse
+                  # indices it was numbered with (a source-supplied table in its own order has been replaced by the derived one)
+                  f"has(grid._ds, 'edge_node_connectivity') and has({_EN}.attrs, 'inverse_indices') and "
+                  f"same(entry(grid._ds, 'face_edge_connectivity').data, summary('{_K}_build_face_edge_connectivity', "
+                  f"{_EN}.attrs['inverse_indices'], dim(grid, 'n_face'), uf('n_max_face_nodes', src(grid))))",
                   # an edge table that was already there is used as it is
                   "implies(old(has(grid._ds, 'edge_node_connectivity') and has(entry(grid._ds, 'edge_node_connectivity').attrs, "
                   "'inverse_indices')), same(entry(grid._ds, 'edge_node_connectivity'), old(entry(grid._ds, 'edge_node_connectivity'))))",
